@@ -20,12 +20,15 @@ const (
 	c15Zone    = "example."
 	c15Key     = "xfr-key."
 	c15KeyAlt  = "other-key."                                       // not configured at the client
+	c15Key2    = "second-key."                                      // configured at the client (secret c15Secret2), not the key of the request
 	c15Secret  = "Vm9yIGRlbSBHZXNldHogc3RlaHQgZWluIFTDvHJow7x0ZXI=" // fixed shared secrets (base64)
 	c15Secret2 = "RGVyIFByb3plc3MgLSBLYWZrYSAtIDE5MjUgLSBLYXAuIDk="
 	c15ID      = 0x4d2c
 )
 
-func c15Secrets() map[string]string { return map[string]string{c15Key: c15Secret} }
+func c15Secrets() map[string]string {
+	return map[string]string{c15Key: c15Secret, c15Key2: c15Secret2}
+}
 
 // ---- records ----
 
@@ -165,6 +168,50 @@ func c15Shapes(maxM int) []*c15shape {
 	return out
 }
 
+// c15WrapShapes: IXFR answers whose serials lie on both sides of the 32-bit wrap or more than 2^31 apart as
+// plain integers, where "same or newer" (RFC 1995 §2) must be RFC 1982 serial arithmetic.
+func c15WrapShapes() []*c15shape {
+	var out []*c15shape
+	const M = 0xFFFFFFFF
+	// the single-SOA answer: client up to date (equal / newer in serial arithmetic although smaller as an integer)
+	for _, p := range [][2]uint32{{M, M}, {M, 1}, {M - 1, 3}, {0x80000005, 7}, {5, 0x7FFFFFF0}} {
+		out = append(out, &c15shape{name: fmt.Sprintf("ixfr-uptodate-S%d-q%d", p[0], p[1]), ixfr: true, qser: p[1], recs: []c15rec{c15SOA(p[0])}})
+	}
+	// the server is newer in serial arithmetic although its serial is the smaller integer: one and two difference
+	// sequences across the wrap, and the AXFR-style fallback
+	type seq struct{ ser []uint32 } // ser[0] = client serial = first old serial … ser[k] = S
+	for _, sq := range []seq{{[]uint32{M, 1}}, {[]uint32{M - 1, M, 2}}, {[]uint32{0x80000006, 5}}, {[]uint32{0xF0000000, 0x10000000, 0x30000000}}} {
+		k := len(sq.ser) - 1
+		S := sq.ser[k]
+		for d := 0; d <= 2; d++ {
+			for a := 0; a <= 2; a++ {
+				recs := []c15rec{c15SOA(S)}
+				idx := 1
+				for i := 0; i < k; i++ {
+					recs = append(recs, c15SOA(sq.ser[i]))
+					for j := 0; j < d; j++ {
+						recs = append(recs, c15rec{idx: idx})
+						idx++
+					}
+					recs = append(recs, c15SOA(sq.ser[i+1]))
+					for j := 0; j < a; j++ {
+						recs = append(recs, c15rec{idx: idx})
+						idx++
+					}
+				}
+				recs = append(recs, c15SOA(S))
+				if len(recs) <= 9 {
+					out = append(out, &c15shape{name: fmt.Sprintf("ixfr-wrap-k%d-d%da%d-S%d-q%d", k, d, a, S, sq.ser[0]), ixfr: true, qser: sq.ser[0], recs: recs})
+				}
+			}
+		}
+		for n := 1; n <= 3; n++ {
+			out = append(out, &c15shape{name: fmt.Sprintf("ixfr-wrap-fallback-n%d-S%d-q%d", n, S, sq.ser[0]), ixfr: true, qser: sq.ser[0], recs: c15ZoneRecs(n, S)})
+		}
+	}
+	return out
+}
+
 // compose splits recs into envelopes: bit g of mask set = envelope boundary after record g.
 func c15Compose(recs []c15rec, mask int) [][]c15rec {
 	var envs [][]c15rec
@@ -198,6 +245,7 @@ const (
 	opStripKeepAR
 	opRekeySecret
 	opRekeyName
+	opRekeyKnown
 	// stage B2: one octet of one message
 	opAlter
 	// stage C: the octet stream
@@ -213,7 +261,7 @@ func (o c15op) stage() int {
 	switch {
 	case o.k <= opEmpty:
 		return 0
-	case o.k <= opRekeyName:
+	case o.k <= opRekeyKnown:
 		return 1
 	case o.k == opAlter:
 		return 2
@@ -247,6 +295,8 @@ func (o c15op) String() string {
 		return fmt.Sprintf("re-sign-with-other-secret(msg %d)", o.i)
 	case opRekeyName:
 		return fmt.Sprintf("re-sign-with-unknown-key(msg %d)", o.i)
+	case opRekeyKnown:
+		return fmt.Sprintf("re-sign-with-another-configured-key(msg %d)", o.i)
 	case opAlter:
 		return fmt.Sprintf("alter(msg %d, octet %d, xor %#02x)", o.i, o.j>>8, o.j&0xff)
 	case opCut:
@@ -267,6 +317,7 @@ const (
 	wStrippedKeepAR
 	wRekeySecret
 	wRekeyName
+	wRekeyKnown
 )
 
 type c15wenv struct {
@@ -372,6 +423,8 @@ func (s *c15script) with(o c15op) *c15script {
 		c.wire[o.i].mode = wRekeySecret
 	case opRekeyName:
 		c.wire[o.i].mode = wRekeyName
+	case opRekeyKnown:
+		c.wire[o.i].mode = wRekeyKnown
 	case opAlter:
 		c.wire[o.i].alter = append(c.wire[o.i].alter, [2]int{o.j >> 8, o.j & 0xff})
 	case opCut:
@@ -419,6 +472,8 @@ func (s *c15script) String() string {
 			b.WriteString("(other secret)")
 		case wRekeyName:
 			b.WriteString("(unknown key)")
+		case wRekeyKnown:
+			b.WriteString("(another configured key)")
 		}
 		for _, a := range w.alter {
 			fmt.Fprintf(&b, "(octet %d ^= %#02x)", a[0], a[1])
@@ -512,6 +567,9 @@ func (s *c15script) stream(req *dns.Msg, reqMAC string) ([]byte, []c15msgLayout,
 			key, secret := c15Key, c15Secret2
 			if w.mode == wRekeyName {
 				key, secret = c15KeyAlt, c15Secret
+			}
+			if w.mode == wRekeyKnown {
+				key, secret = c15Key2, c15Secret2
 			}
 			m.SetTsig(key, dns.HmacSHA256, 300, now)
 			msg, _, err = dns.TsigGenerate(m, secret, chain[w.src].prev, chain[w.src].timers)
